@@ -65,6 +65,42 @@ def to_model(o):
     return ["bad"]
 
 
+class IntSub(int):
+    pass
+
+
+class StrSub(str):
+    pass
+
+
+class ListSub(list):
+    pass
+
+
+class DictSub(dict):
+    pass
+
+
+class FloatSub(float):
+    pass
+
+
+class BytesSub(bytes):
+    pass
+
+
+class TupleSub(tuple):
+    pass
+
+
+class SetSub(set):
+    pass
+
+
+_SUBS = {"int": lambda: IntSub(2), "str": lambda: StrSub("s"), "list": lambda: ListSub([1]), "dict": lambda: DictSub(a=1), "float": lambda: FloatSub(1.5),
+         "bytes": lambda: BytesSub(b"b"), "tuple": lambda: TupleSub((1,)), "set": lambda: SetSub({1})}
+
+
 def _bigstr(n: int) -> str:
     # decimal text without tripping the interpreter's int->str digit limit
     import sys
@@ -111,7 +147,9 @@ def from_model(m):
     if tag == "frozenset":
         return frozenset(from_model(x) for x in m[1])
     if tag == "bad":
-        return Unsupported()
+        # ["bad"] = an object of an unrelated class; ["bad", kind] = an instance of a subclass of a supported builtin
+        # (type-exactness: these are unsupported too, also when they directly follow an instance of the base type)
+        return _SUBS[m[1]]() if len(m) > 1 else Unsupported()
     raise ValueError(m)
 
 
